@@ -41,7 +41,7 @@ func c09EmptyIndex(c *Ctx) {
 		isLen := func(v ssa.Value) bool {
 			return hasOrigin(v, func(o string) bool { return o == "len:field:Index.Chunks" })
 		}
-		isZero := func(v ssa.Value) bool { k, ok := v.(*ssa.Const); return ok && k.Value != nil && k.Int64() == 0 }
+		isZero := func(v ssa.Value) bool { k, ok := v.(*ssa.Const); return ok && k.Value != nil && constInt64(k) == 0 }
 		var holdsOnOp bool
 		switch {
 		case (cm.op == token.GTR || cm.op == token.NEQ) && isLen(cm.x) && isZero(cm.y):
@@ -51,13 +51,13 @@ func c09EmptyIndex(c *Ctx) {
 		case cm.op == token.LSS && isZero(cm.x) && isLen(cm.y):
 			holdsOnOp = true
 		case cm.op == token.LSS && isLen(cm.x): // len < 1
-			if k, ok := cm.y.(*ssa.Const); ok && k.Int64() == 1 {
+			if k, ok := cm.y.(*ssa.Const); ok && constInt64(k) == 1 {
 				holdsOnOp = false
 			} else {
 				return false, false
 			}
 		case cm.op == token.GEQ && isLen(cm.x): // len >= 1
-			if k, ok := cm.y.(*ssa.Const); ok && k.Int64() >= 1 {
+			if k, ok := cm.y.(*ssa.Const); ok && constInt64(k) >= 1 {
 				holdsOnOp = true
 			} else {
 				return false, false
